@@ -184,11 +184,12 @@ theorem run_keeps_conn {a a' : A} {tr : List Ev} (hr : A.Run a tr a')
     rcases A.eff_inv hst.1 with ⟨cid, v3, rfl, _⟩ | ⟨c0, hc0, _, hcase⟩
     · simp [isConnect] at hne
     · rw [hc] at hc0; cases hc0
-      rcases hcase with ⟨_, rfl, hoc⟩ | ⟨_, _, rfl, _, hoc⟩ | ⟨_, rfl, _, hoc⟩ | ⟨_, rfl, hoc⟩ | ⟨rfl, _⟩
+      rcases hcase with ⟨_, rfl, hoc⟩ | ⟨_, _, rfl, _, hoc⟩ | ⟨_, rfl, _, hoc⟩ | ⟨_, rfl, hoc⟩ | ⟨rfl, hoc⟩ | ⟨rfl, _⟩
       · obtain ⟨c', h1, h2⟩ := ih hn' _ hoc; exact ⟨c', h1, by simpa [bump] using h2⟩
       · obtain ⟨c', h1, h2⟩ := ih hn' _ hoc; exact ⟨c', h1, by simpa [bump] using h2⟩
       · obtain ⟨c', h1, h2⟩ := ih hn' _ hoc; exact ⟨c', h1, by simpa [bumpV2] using h2⟩
       · obtain ⟨c', h1, h2⟩ := ih hn' _ hoc; exact ⟨c', h1, by simpa [withKey] using h2⟩
+      · obtain ⟨c', h1, h2⟩ := ih hn' _ hoc; exact ⟨c', h1, by simpa [noKey] using h2⟩
       · simp [isClosed] at hne
 
 theorem tr_keeps_conn {s s' : S} {tr : List Ev} (hr : Tr s tr s')
@@ -329,12 +330,32 @@ theorem abs_of_awaitQueue {fuel : Nat} {s s' : S} {d : Nat} {r : ReadRes} (h : a
     abs s' = abs s := by
   have := abs_awaitQueue fuel s d; rw [h] at this; exact this
 
-theorem hs_acc_noclose {t : Option Bytes} {tr : List Ev} (h : ∀ e ∈ tr, HsTok t e ∨ isAccept e = true) :
+theorem hs_acc_noclose {t : Option Bytes} {tr : List Ev} (h : ∀ e ∈ tr, HsTok t e ∨ isKeyEv e = true) :
     ∀ e ∈ tr, isClosed e = false ∧ isConnect e = false := by
   intro e he
   rcases h e he with ⟨_, _, _, rfl, _⟩ | h1
   · exact ⟨rfl, rfl⟩
-  · cases e <;> simp_all [isAccept, isClosed, isConnect]
+  · cases e <;> simp_all [isKeyEv, isClosed, isConnect]
+
+theorem qok_opForget {s : S} (hq : QOk s) : QOk (opForget s) := by
+  unfold opForget
+  split
+  · exact hq
+  · rename_i c hc
+    intro c' hc'
+    simp only [logEv, Option.some.injEq] at hc'
+    subst hc'
+    intro hv pkt hp
+    exact hq c hc hv pkt hp
+
+theorem coreSome_opForget {s : S} (hs : (coreOf s).isSome = true) : (coreOf (opForget s)).isSome = true := by
+  rcases opForget_tr s with ⟨c, _, _, h⟩ | ⟨h, _⟩
+  · rw [h]; rfl
+  · rw [h] at hs; cases hs
+
+theorem isV3_opForget (s : S) : isV3 (opForget s) = isV3 s := by
+  unfold opForget isV3
+  cases hc : s.l.conn <;> simp [logEv, hc]
 
 theorem protoAuthenticate_contain {p : Params} {rx : Reactions} {s s' : S} {token key : Option Bytes} {r : R Unit}
     (hq : QOk s) (hs : (coreOf s).isSome = true) (hv : isV3 s = true) (hnc : s.w.cancelAt = none)
@@ -352,10 +373,10 @@ theorem protoAuthenticate_contain {p : Params} {rx : Reactions} {s s' : S} {toke
     · rename_i tk ky
       split at h
       · cases h; exact ⟨hq, (by intro e he; cases he; exact .inr (.inl rfl)), (by intro hh; cases hh)⟩
-      · have hsf : (coreOf (flush s)).isSome = true := coreSome_of_abs (abs_flush s) hs
-        have hw := opWriteHS_contain (rx := rx) hsf (htok tk rfl) (qok_flush hq)
+      · have hsf : (coreOf (opForget (flush s))).isSome = true := coreSome_opForget (coreSome_of_abs (abs_flush s) hs)
+        have hw := opWriteHS_contain (rx := rx) hsf (htok tk rfl) (qok_opForget (qok_flush hq))
         split at h
-        · cases h; exact ⟨qok_flush hq, (by intro e he; cases he; exact .inr (.inl rfl)), (by intro hh; cases hh)⟩
+        · cases h; exact ⟨qok_opForget (qok_flush hq), (by intro e he; cases he; exact .inr (.inl rfl)), (by intro hh; cases hh)⟩
         · rename_i e hne he; exact absurd (hw.1 e he) hne
         · rename_i s1 hw1
           have hq1 := hw.2 s1 hw1
@@ -366,7 +387,7 @@ theorem protoAuthenticate_contain {p : Params} {rx : Reactions} {s s' : S} {toke
             exact ⟨(qok_awaitQueue _ hq1 ha).1, (by intro e he; cases he; exact .inr (.inr rfl)), (by intro hh; cases hh)⟩
           · rename_i s2 ha
             have hnc1 : s1.w.cancelAt = none := by
-              rw [cancelAt_opWriteHS hw1]; unfold flush; rw [cancelAt_softConn]; exact hnc
+              rw [cancelAt_opWriteHS hw1, cancelAt_opForget]; unfold flush; rw [cancelAt_softConn]; exact hnc
             exact absurd rfl (awaitQueue_unarmed _ hnc1 ha).1
           · rename_i raw s2 ha
             obtain ⟨hq2, hlen⟩ := qok_awaitQueue _ hq1 ha
@@ -375,7 +396,7 @@ theorem protoAuthenticate_contain {p : Params} {rx : Reactions} {s s' : S} {toke
             have hv2 : isV3 s2 = true := by
               rw [isV3_of_abs (abs_of_awaitQueue ha)]
               have := tr_keeps_conn ht (by simp [isClosed, isConnect]) hsf
-              rw [this.2, isV3_of_abs (abs_flush s)]; exact hv
+              rw [this.2, isV3_opForget, isV3_of_abs (abs_flush s)]; exact hv
             obtain ⟨a1, a2, a3⟩ := acceptReply_contain (hkey ky rfl) (hlen raw rfl hv2) hq2 hs2 h
             exact ⟨a1, fun e he => .inr (.inl (a2 e he)), a3⟩
     · cases h; exact ⟨hq, (by intro e he; cases he; exact .inr (.inl rfl)), (by intro hh; cases hh)⟩
